@@ -148,6 +148,7 @@ class World(object):
     # ---- operations
     def apply(self, op):
         self.effs = []
+        self.skipped = False
         kind = op[0]
         nerr0 = len([1 for lv, _ in self.options.logger.lines if lv == 'error'])
         r = self._apply(op)
@@ -195,6 +196,10 @@ class World(object):
             return ['ERegroup %d' % k] + list(self.effs)
         if pi >= len(self.pools):
             return ['EInapplicable']
+        if self.sup.process_groups.get(self.names[pi]) is not self.pools[pi].group:
+            # the pool was removed: its objects are unreachable for supervisord, nothing can happen to them
+            self.skipped = True
+            return ['EInapplicable']
         pool = self.pools[pi]
         if kind in ('dispatch', 'transition'):
             return self._dispatch(pool, pi, kind, op[2])
@@ -215,6 +220,8 @@ class World(object):
                 return list(self.effs) if pool.op_running(i) else ['EInapplicable']
             if kind == 'stop':
                 return list(self.effs) if pool.op_stop(i) else ['EInapplicable']
+            if kind == 'stopfail':
+                return list(self.effs) if pool.op_stopfail(i) else ['EInapplicable']
             if kind == 'finish':
                 r = pool.op_finish(i, bytes(op[3]), tuple(op[4]), False)
                 if r is False:
